@@ -42,10 +42,10 @@ def lengths(scheme, B, w):
     blen = B // 8
     cs8 = (2 * w) // 8 if scheme in ('md', 'sha', 'blake') else 0
     if blen <= 8:
-        return list(range(0, 3 * blen + 2))
+        return list(range(0, 3 * blen + 2)) + [k * blen + r for k in (5, 17, 33, 257) for r in range(blen)]
     res = {0, 1, 2, blen - cs8 - 2, blen - cs8 - 1, blen - cs8, blen - cs8 + 1, blen - 2, blen - 1}
     out = set()
-    for k in range(0, 4):
+    for k in (0, 1, 2, 3, 5, 17):
         for r in res:
             if 0 <= r < blen:
                 out.add(k * blen + r)
@@ -282,7 +282,7 @@ def systems(tier):
 def subchecks():
     return [
         Sub('pad-unpad', pts_pad, run_pad, engine='P',
-            bound='8 schemes x block sizes 8..1024 step 8 (quick: 8..256 step 8 and 512, 1016, 1024; MD/SHA: B>=cs+8, w in {32,64}; BLAKE: 4 digest sizes) x |M| in every residue class near 0, the length-field boundary and the block end, 0..3 full blocks (every length 0..3B+1 when B<=64) x L omitted / every L mod 8 x longer containers; counters read after each block; remove; refusals'),
+            bound='8 schemes x block sizes 8..1024 step 8 (quick: 8..256 step 8 and 512, 1016, 1024; MD/SHA: B>=cs+8, w in {32,64}; BLAKE: 4 digest sizes) x |M| in every residue class near 0, the length-field boundary and the block end, 0..3, 5 and 17 full blocks (every length 0..3B+1 and 5, 17, 33, 257 blocks + every residue when B<=64) x L omitted / every L mod 8 x longer containers; counters read after each block; remove; refusals'),
         Sub('malformed', pts_malformed, run_malformed, engine='D',
             bound='PKCS#7 and X9.23 remove on every whole-block string for block length 1 (1-2 blocks) and 2 (1 block: all 65536), and on every string over {0,1,2,3,blen-1,blen,blen+1,255} for block length 3 (1-2 blocks), 4 (1 block) and a product family for 8'),
         hsub('histories', systems, lambda tier: 4 if tier == 'thorough' else 3,
